@@ -12,7 +12,7 @@ pub fn property() -> Property {
     Property {
         id: "C01",
         level: "exploration",
-        rule: "H1 scripted transport serves generator-built responses (payload x framing x chunking x trailing garbage) under a chosen TCP segmentation; the caller consumes with a chosen read plan; oracle = byte equality with the generator's payload, clean end, and Ok(0) on reads after the end. Generators: allsplits = ALL 2^(n-1) segmentations of small body wires (exhaustive); splitpoints = every single split point and the 1-byte-per-read script of 24 fixed base responses (exhaustive); random/large = seeded random. A case is non-trivial when the payload is non-empty or the wire is served in >= 2 segments; distinct = hash(wire, segmentation, read plan). Random cases are served under 200/201/404/503 and the never-followed 3xx statuses 300/305/306/399, a few status lines announce HTTP/1.0.",
+        rule: "H1 scripted transport serves generator-built responses (payload x framing x chunking x trailing garbage) under a chosen TCP segmentation; the caller consumes with a chosen read plan; oracle = byte equality with the generator's payload, clean end, and Ok(0) on reads after the end. Generators: allsplits = ALL 2^(n-1) segmentations of small body wires (exhaustive); splitpoints = every single split point and the 1-byte-per-read script of 24 fixed base responses (exhaustive); random/large = seeded random. A case is non-trivial when the payload is non-empty or the wire is served in >= 2 segments; distinct = hash(wire, segmentation, read plan). Random cases are served under 200/201/404/503 and the never-followed 3xx statuses 300/305/306/399, a few status lines announce HTTP/1.0. Non-framing header fields (Connection: keep-alive / close, Keep-Alive, Proxy-Connection, Server, Date, Vary, Content-Type) accompany a share of the responses.",
         assumptions: &[
             "the scripted transport replaces only the TCP dial; request writing and the whole response pipeline are production code",
             "responses are well-formed by construction (generator is the ground truth)",
